@@ -301,11 +301,17 @@ def coverage(prop, rec, lines, v, mcs, ntraces, extra):
     keys, n, samples, fams = set(), 0, [], {}
     step = max(1, len(lines) // 7)
     reads = []
+    arch32, n32, ncold, ncrash, nhammer = False, 0, 0, 0, 0
     for i, ln in enumerate(lines):
         try:
             e = json.loads(ln)
         except Exception:
             continue
+        if e.get("op") in ("Reset", "Cut"):
+            arch32 = e.get("arch") == "386"
+            ncold += 1 if e.get("cold") else 0
+        ncrash += 1 if e.get("op") == "Crash" else 0
+        nhammer += 1 if e.get("role") == "hammer" else 0
         if e.get("op") == "NewMnemonicCall":
             reads = []
         elif e.get("op") == "Read":
@@ -315,6 +321,7 @@ def coverage(prop, rec, lines, v, mcs, ntraces, extra):
         if not speaks(e):
             continue
         n += 1
+        n32 += 1 if arch32 else 0
         keys.add(key_of(e))
         f = e.get("fam") or e.get("cls") or e.get("op")
         fams[f] = fams.get(f, 0) + 1
@@ -341,6 +348,14 @@ def coverage(prop, rec, lines, v, mcs, ntraces, extra):
         raise Infra("index cover incomplete: %s" % v.cover)
     if v.cover and any(v.cover.values()):
         cov["list_indices_covered_per_language"] = v.cover
+    if n32:
+        cov["evaluations_in_32bit_build"] = n32
+    if ncold:
+        cov["cold_concurrent_start_processes"] = ncold
+    if nhammer:
+        cov["unsynchronised_overlapping_calls"] = nhammer
+    if ncrash:
+        cov["process_deaths_recorded"] = ncrash
     cov.update(extra or {})
     return cov
 
@@ -351,6 +366,7 @@ def assumptions(prop, rec):
         "golden word lists: snapshot in spec/data/wordlists.json whose SHA-256 fingerprints are ASSUMEd in Wordlists.tla",
         "NFKD data: CPython unicodedata (Unicode 14.0)",
         "the harness logs observations faithfully (it computes no expected values)",
+        "platforms: linux/amd64, and linux/386 for the data-level families (the 32-bit build runs on this kernel); other GOARCH/GOOS values are not executed",
     ]
     return base + rec.get("assumes", [])
 
